@@ -477,6 +477,20 @@ impl Real {
         }))
         .map_err(|_| "panic".to_string())
     }
+    fn lookup_n(&self, key: &[u16], fuzzy: bool, n: usize) -> Result<Vec<Ph>, String> {
+        let k = syls(key);
+        let st = if fuzzy { LookupStrategy::FuzzyPartialPrefix } else { LookupStrategy::Standard };
+        catch_unwind(AssertUnwindSafe(|| {
+            self.trie.lookup_first_n_phrases(&k.as_slice(), n, st).iter().map(of_phrase).collect()
+        }))
+        .map_err(|_| "panic".to_string())
+    }
+    fn first(&self, key: &[u16], fuzzy: bool) -> Result<Option<Ph>, String> {
+        let k = syls(key);
+        let st = if fuzzy { LookupStrategy::FuzzyPartialPrefix } else { LookupStrategy::Standard };
+        catch_unwind(AssertUnwindSafe(|| self.trie.lookup_first_phrase(&k.as_slice(), st).map(|p| of_phrase(&p))))
+            .map_err(|_| "panic".to_string())
+    }
     fn entries(&self) -> Result<Vec<(Vec<u16>, Ph)>, String> {
         catch_unwind(AssertUnwindSafe(|| {
             self.trie
@@ -750,6 +764,9 @@ struct Stats {
     bytes_max: usize,
     with_ts: u64,
     four_byte: u64,
+    first_n: u64,
+    first_n_cut: u64,
+    first_phrase: u64,
     oracle_fail: u64,
 }
 
@@ -935,6 +952,62 @@ fn check_reader(out: &mut Out, st: &mut Stats, rng: &mut Rng, case: &Case, bytes
                 ks.iter().map(|k| key_s(k)).collect::<Vec<_>>().join(" "), rs.join(" ")));
         }
     }
+    // the other two lookup methods of the trait: lookup_first_n_phrases (a prefix of lookup_all_phrases holding
+    // at least min(n, all) phrases) and lookup_first_phrase (its first element)
+    for fuzzy in [false, true] {
+        let pool: &Vec<Vec<u16>> = if fuzzy { &fq } else { &qs };
+        let mut sel: Vec<Vec<u16>> = pool.iter().take(if fuzzy { 6 } else { rm.len().min(6) + 2 }).cloned().collect();
+        if sel.len() > 8 {
+            sel.truncate(8);
+        }
+        let tag = if fuzzy { "fuzzy" } else { "std" };
+        let all: Vec<Vec<Ph>> = sel.iter().map(|q| real.lookup(q, fuzzy).unwrap_or_default()).collect();
+        for n in [0usize, 1, 3] {
+            let mut results = vec![];
+            for (q, all) in sel.iter().zip(all.iter()) {
+                let got = match real.lookup_n(q, fuzzy, n) {
+                    Ok(g) => g,
+                    Err(e) => {
+                        fail(out, st, &format!("lookup_first_n_phrases({}, {}, {}) {} ({})", key_s(q), n, tag, e, who), case);
+                        vec![]
+                    }
+                };
+                st.first_n += 1;
+                if got.len() < all.len() {
+                    st.first_n_cut += 1;
+                }
+                if !(all.starts_with(&got) && got.len() >= n.min(all.len())) {
+                    fail(out, st, &format!("lookup_first_n_phrases({}, {}, {}) = {} is not a prefix of lookup_all_phrases = {} with at least min(n, all) phrases ({})",
+                        key_s(q), n, tag, phs_s(&got), phs_s(all), who), case);
+                }
+                results.push(phs_s(&got));
+            }
+            if emit && !sel.is_empty() {
+                out.rec(&format!("codec lookupn {} {} {} {} => {}", file, tag, n,
+                    sel.iter().map(|k| key_s(k)).collect::<Vec<_>>().join(" "), results.join(" ")));
+            }
+        }
+        let mut results = vec![];
+        for (q, all) in sel.iter().zip(all.iter()) {
+            let got = match real.first(q, fuzzy) {
+                Ok(g) => g,
+                Err(e) => {
+                    fail(out, st, &format!("lookup_first_phrase({}, {}) {} ({})", key_s(q), tag, e, who), case);
+                    None
+                }
+            };
+            st.first_phrase += 1;
+            if got.as_ref() != all.first() {
+                fail(out, st, &format!("lookup_first_phrase({}, {}) = {} but lookup_all_phrases = {} ({})", key_s(q), tag,
+                    got.as_ref().map(ph_s).unwrap_or("-".into()), phs_s(all), who), case);
+            }
+            results.push(got.as_ref().map(ph_s).unwrap_or("-".into()));
+        }
+        if emit && !sel.is_empty() {
+            out.rec(&format!("codec first {} {} {} => {}", file, tag,
+                sel.iter().map(|k| key_s(k)).collect::<Vec<_>>().join(" "), results.join(" ")));
+        }
+    }
     // enumeration
     match real.entries() {
         Ok(es) => {
@@ -1091,7 +1164,7 @@ fn main() {
     let mut st = Stats {
         files: 0, entries: 0, lookups_hit: 0, lookups_miss: 0, fuzzy: 0, fuzzy_nonempty: 0, fuzzy_multi_key: 0,
         reinserts: 0, empty_key: 0, prefix_keys: 0, mixed_leaves: 0, max_syllables: 0, bytes_max: 0, with_ts: 0,
-        four_byte: 0, oracle_fail: 0,
+        four_byte: 0, first_n: 0, first_n_cut: 0, first_phrase: 0, oracle_fail: 0,
     };
 
     // ---- fixed cases: the repository's own examples and the corner cases named in the design
@@ -1197,6 +1270,9 @@ fn main() {
     out.stat("fuzzy_lookups", st.fuzzy);
     out.stat("fuzzy_lookups_nonempty", st.fuzzy_nonempty);
     out.stat("fuzzy_lookups_matching_several_keys", st.fuzzy_multi_key);
+    out.stat("first_n_lookups", st.first_n);
+    out.stat("first_n_lookups_shorter_than_all", st.first_n_cut);
+    out.stat("first_phrase_lookups", st.first_phrase);
     out.stat("model_writer_files_identical", x_identical);
     out.stat("model_writer_files_different", x_different);
     for (k, v) in &over {
